@@ -32,7 +32,7 @@ Stateless lines:
 
 Clients of get_position / set_position (`Model/C12/Grammar.lean`).  `GR` / `SK` are grammars /
 skippers in prefix notation, tokens separated by `.`: `any | lit:C | cset:CS | str:S | seq | alt | opt |
-rep | plus | not | fatal` and `eps | lit:C | cset:CS | seq | rep` (repetition bodies must consume).
+rep | plus | not | fatal` and `eps | space | lit:C | cset:CS | seq | rep` (repetition bodies must consume).
 
 * `gp K TEXT FA OPS SK GR`      — history OPS, then `phrase_parse(GR, stream, SK)` over a stream that
                                   records every basic_stream call: result skeleton, every call with its
@@ -202,6 +202,7 @@ def parseSk (k : String) : Nat → List String → Option (Sk × List String)
   | f + 1, tok :: rest =>
     match splitColon tok with
     | ("eps", none) => some (.eps, rest)
+    | ("space", none) => some (Sk.space, rest)
     | ("lit", some a) =>
       match parseText k a with
       | some [c] => some (.lit c, rest)
@@ -476,7 +477,12 @@ def handle (d : DState) (toks : List String) : DState × String :=
   | ["posout", k, a] =>
     match kindMax k, parsePosVal a with
     | some _, some a =>
-      (d, "out=" ++ a.out ++ (match a.loc with | some l => " loc=" ++ l.out | none => ""))
+      (d, "out=" ++ a.out ++
+        (match a.loc with
+         | some l =>
+           let m : Loc := ⟨l.line + 1, 7⟩
+           " loc=" ++ l.out ++ " mut=" ++ m.out ++ " orig=" ++ l.out ++ (if m.eq l then " same" else " differ")
+         | none => ""))
     | _, _ => (d, "bad-op")
   | _ => (d, "bad-op")
 
